@@ -2,6 +2,7 @@
 package c07
 
 import (
+	"os"
 	"bytes"
 	"context"
 	"encoding/binary"
@@ -619,6 +620,61 @@ func heldSendsCase(c *core.Ctx, r *core.Rand, i int) {
 	}
 }
 
+// failWriter is a transport whose Write fails (an expired deadline: nothing written) when told to.
+type failWriter struct {
+	failNext bool
+	short    int
+	got      [][]byte
+}
+
+func (f *failWriter) Read([]byte) (int, error) { return 0, io.EOF }
+func (f *failWriter) Close() error             { return nil }
+func (f *failWriter) Write(p []byte) (int, error) {
+	if f.failNext {
+		f.failNext = false
+		return 0, &net.OpError{Op: "write", Net: "mem", Err: os.ErrDeadlineExceeded}
+	}
+	f.got = append(f.got, append([]byte{}, p...))
+	return len(p), nil
+}
+
+// failedSendsCase: on one stream some Sends fail in the transport (nothing written); every Send that succeeds puts
+// exactly its own message on the wire: what the peer reads is the sequence of successfully sent messages.
+func failedSendsCase(c *core.Ctx, r *core.Rand, i int) {
+	w := &failWriter{}
+	st := ttlv.NewStream(w, 1<<20)
+	var want [][]byte
+	n := 3 + r.Intn(6)
+	fails := 0
+	for k := 0; k < n; k++ {
+		t, b := message(r, sizeClasses[r.Intn(len(sizeClasses))])
+		fail := k < n-1 && r.P(1, 3)
+		w.failNext = fail
+		err := st.Send(gen.ToValue(t))
+		if fail {
+			fails++
+			if err == nil {
+				c.Violation("C07:failed-send:error-swallowed", "Send returns nil although the transport's Write failed", nil)
+				return
+			}
+			continue
+		}
+		if err != nil {
+			c.Violation("C07:failed-send:later-send-fails", fmt.Sprintf("Send %d fails (%v) on a transport that accepts it, after an earlier Send failed in the transport", k+1, err), nil)
+			return
+		}
+		want = append(want, b)
+	}
+	c.Count("sends_after_failed_sends", int64(n-fails))
+	c.Count("failed_sends", int64(fails))
+	c.Distinct(core.Hash64("failed-sends", fmt.Sprint(n, fails, i%7)))
+	got := bytes.Join(w.got, nil)
+	if !bytes.Equal(got, bytes.Join(want, nil)) {
+		c.Violation("C07:failed-send:wire-differs", fmt.Sprintf("%d Sends, %d of them failed in the transport: the bytes written (%d) are not the %d successfully sent messages (%d bytes)", n, fails, len(got), len(want), len(bytes.Join(want, nil))),
+			map[string]any{"written": fmt.Sprintf("%x", head(got)), "expected": fmt.Sprintf("%x", head(bytes.Join(want, nil)))})
+	}
+}
+
 func head(b []byte) []byte {
 	if len(b) > 96 {
 		return b[:96]
@@ -644,13 +700,14 @@ func Spec() *core.Spec {
 			"truncation at EVERY byte offset of messages up to 2 KB behind a complete message; announced lengths {max-16 .. max+8, 2*max, 2^31, 2^32-8, 2^32-1} for max in {64 KiB, 1 MiB} with consumed-byte, requested-size and TotalAlloc monitors; " +
 			"the last chunk delivered together with io.EOF; byte-wise delivery against a real server connection and a real client connection. every fifth item a bare padded scalar; all messages of a sequence re-read after the last Recv; small configured maxima (16..1024) with complete messages around them; one item in twelve a correctly delimited frame with an invalid type byte (Recv fails, consumes exactly the frame, later messages intact); distinct = distinct (segmentation, boundaries) / (size, offset class) combinations",
 		Assumptions: []string{"messages are compared as trees read back by the harness from the generic value", "alloc monitor: runtime.MemStats.TotalAlloc delta around a single-goroutine call, threshold 256 KiB"},
-		Required:    []string{"sequences", "recvs", "scalar_messages", "undecodable_frames_in_sequences", "odd_length_structures_in_sequences", "held_sends", "small_limit_cases.over", "held_messages_rechecked", "truncations", "limit_cases.over", "limit_cases.within", "eof_with_data_cases", "e2e_server_messages", "e2e_client_messages", "segmentation.1-byte", "segmentation.one-read"},
+		Required:    []string{"sequences", "recvs", "scalar_messages", "undecodable_frames_in_sequences", "odd_length_structures_in_sequences", "held_sends", "failed_sends", "sends_after_failed_sends", "small_limit_cases.over", "held_messages_rechecked", "truncations", "limit_cases.over", "limit_cases.within", "eof_with_data_cases", "e2e_server_messages", "e2e_client_messages", "segmentation.1-byte", "segmentation.one-read"},
 		Families: []core.Family{
 			{Name: "sequences", N: nOf(20000, 800000), Run: seqCase},
 			{Name: "truncation", Exhaustive: true, N: nOf(8*6, 8*200), Run: truncCase},
 			{Name: "small-limit", Exhaustive: true, N: nOf(49*4, 49*40), Run: smallLimitCase},
 			{Name: "limit", Exhaustive: true, N: nOf(2*10*4, 2*10*100), Run: limitCase},
 			{Name: "data-with-eof", N: nOf(400, 20000), Run: eofWithDataCase},
+			{Name: "failed-sends", N: nOf(600, 30000), Run: failedSendsCase},
 			{Name: "held-sends", N: nOf(600, 30000), Run: heldSendsCase, Timeout: 20 * time.Second},
 			{Name: "end-to-end", N: nOf(200, 6000), Run: e2eCase, Timeout: 20 * time.Second},
 		},
